@@ -228,7 +228,7 @@ pub fn standard_run(case: &Case, acc: &mut Acc, opts: Option<RefOpts>) -> Option
                 rf.items
                     .iter()
                     .enumerate()
-                    .map(|(k, _)| rf.err_vars.contains_key(&k))
+                    .map(|(k, _)| rf.err_vars.contains_key(&k) || (rf.ends_in_failing_while_condition && k + 1 == rf.items.len()))
                     .collect(),
             ),
         },
